@@ -125,12 +125,6 @@ CHECKS["C01"] = {
          "gen_stubs": [TX_STUB],
          "params": {"quick": grid(fam=[0], n=[1], k=[2]) + grid(fam=[1], n=[1], k=[3]) + grid(fam=[1, 2], n=[2], k=[2]) + grid(fam=[3], n=[3], k=[3]), "thorough": grid(fam=[0], n=[1], k=[2]) + grid(fam=[1], n=[1], k=[3, 4, 5]) + grid(fam=[1], n=[2], k=[2, 3]) + grid(fam=[2], n=[2], k=[2]) + grid(fam=[2], n=[1], k=[3]) + grid(fam=[3], n=[3], k=[3, 4])},
          "cover": []},
-        {"name": "commands", "pkg": "internal/state", "pkgname": "state", "entry": "VerifC01Commands",
-         "files": ["zz_verif_c01.go", "zz_verif_c01b.go", "zz_verif_c17.go", "zz_verif_c20.go", "zz_verif_fixture.go", "zz_verif_world.go"],
-         "extra_overlay": {"internal/response/zz_verif_decode.go": "internal/response/zz_verif_decode.go"},
-         "with": ["verifdb"], "gen_stubs": [TX_STUB],
-         "params": {"quick": grid(n=[1], k=[2, 3]) + grid(n=[2], k=[2]), "thorough": grid(n=[1], k=[2, 3, 4]) + grid(n=[2], k=[2, 3])},
-         "cover": ["own-store", "own-fetch", "own-expunge"]},
         {"name": "session", "pkg": "internal/session", "pkgname": "session", "entry": "VerifC01Session", "files": ["zz_verif_c18.go", "zz_verif_c18b.go", "zz_verif_c01.go"],
          "with": ["state_export", "backend_export", "verifdb"],
          "extra_overlay": {"internal/response/zz_verif_decode.go": "internal/response/zz_verif_decode.go"},
